@@ -319,7 +319,7 @@ PROPS["C19"] = {
     "units": [
         U("c19_bincount", "inpkg", "broker", "^TestVerifC19BinCount$", (2000, 20000), shards=(4, 8)),
         U("c19_counters", "inpkg", "broker", "^TestVerifC19Counters$", (500, 4000), timeout=(300, 3000), wedge_is_violation=True),
-        U("c19_rounded_concurrent", "inpkg", "broker", "^TestVerifC19RoundedConcurrent$", (150, 1500), shards=(2, 4), timeout=(300, 3000)),
+        U("c19_rounded_concurrent", "inpkg", "broker", "^TestVerifC19RoundedConcurrent$", (400, 3000), shards=(4, 8), timeout=(300, 3000)),
         U("c19_journal", "ext", "c19", "^TestVerifC19Journal$", (400, 6000), timeout=(300, 3000)),
     ],
 }
@@ -550,6 +550,12 @@ PROPS["C09"]["units"].append(F("c09_fuzz_stream", "c09", "FuzzC09Stream", 90))
 PROPS["C09"]["units"].append(F("c09_fuzz_rapid", "c09", "FuzzC09Rapid", 60))
 PROPS["C07"]["units"].append(F("c07_fuzz_rapid", "c07", "FuzzC07Rapid", 90))
 PROPS["C07"]["units"].append(F("c07_fuzz_bytes", "c07", "FuzzC07Bytes", 90))
+PROPS["C07"]["units"].append(U("c07_binaries", "ext", "c07bin", "^TestVerifC07Binaries$", (1, 1), shards=(3, 3), timeout=(400, 1200)))
+PROPS["C07"]["rule"] += (" c07_binaries: the proxy, client and server binaries started in the logging configurations an operator may use "
+                         "(proxy: -verbose x -log; client: stderr / -log / -log-to-state-dir; server: stderr / -log; never -unsafe-logging) against "
+                         "loopback ports that refuse connections (and, for client and server, one SOCKS connection / one WebSocket request with a "
+                         "client_ip), so that they log error lines carrying addresses; log file and stderr are scanned with the same survivor rule as "
+                         "c07_system. The nine configurations are enumerated completely in every run (spread over three processes; four rounds in the thorough tier). Non-trivial = a configuration with a log file or -verbose; counters report lines scanned and placeholders seen.")
 PROPS["C07"]["units"].append(U("c07_system", "ext", "sys", "^TestVerifC01System$", (0, 30), shards=(0, 4), timeout=(400, 1500),
                                tiers=["thorough"], env={"VERIF_SYS_PURPOSE": "c07"}))
 PROPS["C07"]["rule"] += (" c07_system (thorough): the whole-system tier's generated fault schedules (see C01) with all four unmodified "
